@@ -69,7 +69,31 @@ const CALLS_SAME_NODE: [Stmt; 5] = [
   Stmt { text: "baz(3)", plants: &[] },
 ];
 
-static LANGS: [LangSpec; 4] = [
+/// rules whose only potential kind (`identifier`) has a SMALLER kind id than the comment kind:
+/// the comment nodes then lie beyond the end of CombinedScan's kind table
+const CALLS_IDENT: [Stmt; 5] = [
+  Stmt { text: "foo(1)", plants: &[(0, 0, 3)] },
+  Stmt { text: "bar(2)", plants: &[(1, 0, 3)] },
+  Stmt { text: "foo(bar(2))", plants: &[(0, 0, 3), (1, 4, 7)] },
+  Stmt { text: "foo(1); bar(2)", plants: &[(0, 0, 3), (1, 8, 11)] },
+  Stmt { text: "baz(3)", plants: &[] },
+];
+
+static LANGS: [LangSpec; 5] = [
+  LangSpec {
+    name: "javascript-low-kind-ids",
+    lang: SupportLang::JavaScript,
+    yaml_lang: "JavaScript",
+    stmts: CALLS_IDENT,
+    open: "// ",
+    close: "",
+    block_header: &["function f() {"],
+    block_footer: &["}"],
+    indent: "  ",
+    r1: r#"{"kind": "identifier", "regex": "^foo$"}"#,
+    r2: r#"{"kind": "identifier", "regex": "^bar$"}"#,
+    fix: "qux",
+  },
   LangSpec {
     name: "javascript-same-node",
     lang: SupportLang::JavaScript,
